@@ -236,3 +236,25 @@ def run(chk: Check, eng: Engine) -> None:
         chk.ok("R06-c", cons.fq, colfor[0].line, f"work list `{short(colfor[0].ast.iter)}` is the column object (grows only through Column.add)")  # type: ignore[union-attr]
     else:
         raise AnalysisError("_consume: per-column work-list loop not found")
+
+
+# ------------------------------------------------------------------ self-test variants
+from ..mutants import M  # noqa: E402
+
+_PS = "src/fandango/language/grammar/parser/parse_state.py"
+_COL = "src/fandango/language/grammar/parser/column.py"
+_IP = "src/fandango/language/grammar/parser/iterative_parser.py"
+MUTANTS = [
+    M("hash-adds-field-eq-ignores", _PS, "                    self._dot,\n                    tuple(self.children),\n", "                    self._dot,\n                    tuple(self.children),\n                    self.incomplete_idx,\n", "R06-a"),
+    M("eq-drops-dot", _PS, "            and self.symbols == other.symbols\n            and self._dot == other._dot\n", "            and self.symbols == other.symbols\n", "R06-a"),
+    M("column-add-unconditional", _COL, "        if state not in self.unique:\n            self.states.append(state)\n            self.unique.add(state)\n",
+      "        if True:\n            self.states.append(state)\n            self.unique.add(state)\n", "R06-b"),
+    M("parser-appends-state-directly", _IP, "            table[k].add(s)\n", "            table[k].states.append(s)\n", "R06-b"),
+    M("consume-index-conditional", _IP, "            self.place_repetition_shortcut(table, curr_table_idx)\n            curr_table_idx += 1\n",
+      "            self.place_repetition_shortcut(table, curr_table_idx)\n            if len(table[curr_table_idx]) > 0 or at_end:\n                curr_table_idx += 1\n", "R06-c"),
+    M("table-extended-in-loop", _IP, "            self.place_repetition_shortcut(table, curr_table_idx)\n", "            self.place_repetition_shortcut(table, curr_table_idx)\n            table.append(Column())\n", "R06-c"),
+]
+TWINS = [
+    M("twin-eq-reordered", _PS, "            and self.nonterminal == other.nonterminal\n            and self.position == other.position\n", "            and self.position == other.position\n            and self.nonterminal == other.nonterminal\n", None),
+    M("twin-add-else-return", _COL, "                self.dot_map[symbol] = state_list\n            return True\n        return False\n", "                self.dot_map[symbol] = state_list\n            return True\n        else:\n            return False\n", None),
+]
